@@ -103,7 +103,8 @@ fn t_value(v: &Value) -> Tree {
 pub fn t_event(e: &Event) -> Tree {
     obj(vec![
         ("event_type", Tree::Str(e.event_type.to_string())),
-        ("ts", Tree::Int(e.timestamp.timestamp_nanos_opt().map(|x| x as i128).unwrap_or(i128::MAX))),
+        // nanoseconds since the epoch, in i128: a timestamp floored to the millisecond can leave the i64 range
+        ("ts", Tree::Int(e.timestamp.timestamp_millis() as i128 * 1_000_000 + (e.timestamp.timestamp_subsec_nanos() % 1_000_000) as i128)),
         ("data", Tree::Obj(e.data.iter().map(|(k, v)| (k.to_string(), t_value(v))).collect())),
     ])
 }
@@ -111,7 +112,6 @@ fn t_sev(e: &SerializableEvent) -> Tree {
     obj(vec![
         ("event_type", Tree::Str(e.event_type.clone())),
         ("timestamp_ms", Tree::Int(e.timestamp_ms as i128)),
-        ("timestamp_subms_ns", Tree::Int(e.timestamp_subms_ns as i128)),
         ("fields", map_t(&e.fields, t_sv)),
     ])
 }
@@ -125,9 +125,6 @@ fn t_wc(w: &WindowCheckpoint) -> Tree {
     obj(vec![
         ("events", t_sevs(&w.events)), ("window_start_ms", opt_i(w.window_start_ms)),
         ("last_emit_ms", opt_i(w.last_emit_ms)), ("partitions", map_t(&w.partitions, t_pwc)),
-        ("events_since_emit", w.events_since_emit.map(|n| Tree::Int(n as i128)).unwrap_or(Tree::Null)),
-        ("window_start_subms_ns", Tree::Int(w.window_start_subms_ns as i128)),
-        ("last_emit_subms_ns", Tree::Int(w.last_emit_subms_ns as i128)),
     ])
 }
 fn t_run(r: &RunCheckpoint) -> Tree {
@@ -306,7 +303,7 @@ fn gen_wc(r: &mut Rng, c2: &mut Ctx2) -> WindowCheckpoint {
     let parts = if r.chance(1, 2) { HashMap::new() } else {
         gen_map(r, 3, |r| { let mut c = Ctx2::default(); PartitionedWindowCheckpoint { events: gen_sevs(r, &mut c, 3), window_start_ms: gen_opt_ms(r), events_since_emit: if r.chance(1, 2) { None } else { Some(r.below(5) as usize) }, window_start_subms_ns: gen_sub(r) } })
     };
-    WindowCheckpoint { events: gen_sevs(r, c2, 3), window_start_ms: gen_opt_ms(r), last_emit_ms: gen_opt_ms(r), partitions: parts, events_since_emit: if r.chance(1, 2) { None } else { Some(r.below(5) as usize) }, window_start_subms_ns: gen_sub(r), last_emit_subms_ns: gen_sub(r) }
+    WindowCheckpoint { events: gen_sevs(r, c2, 3), window_start_ms: gen_opt_ms(r), last_emit_ms: gen_opt_ms(r), partitions: parts }
 }
 fn gen_run(r: &mut Rng, c2: &mut Ctx2) -> RunCheckpoint {
     c2.hit("ck:run");
@@ -511,6 +508,7 @@ fn gen_prog(r: &mut Rng) -> Prog {
             let part = r.chance(2, 5);
             let (w, spec) = window_spec2(r, &mut tags);
             if part { tags.push("partitioned"); }
+            if !part && spec.0 == "slidingCount" { tags.push("slidingCount-plain"); }
             wm = r.chance(1, 4) && !tags.contains(&"count") && !tags.contains(&"slidingCount");
             // now and then the window stream reads a derived stream instead of the raw event type
             let derived = !wm && r.chance(1, 5);
@@ -581,6 +579,7 @@ fn gen_prog(r: &mut Rng) -> Prog {
     let (text, types) = if r.chance(1, 5) && !text.contains("stream W") {
         let mut t2 = Vec::new();
         let w = window_spec(r, &mut t2);
+        if t2.contains(&"slidingCount") { tags.push("slidingCount-plain"); }
         tags.extend(t2); tags.push("two-streams");
         let mut ty = types.clone(); ty.push("T");
         (format!("{}\n\nstream W2 = T\n    .window({})\n    .aggregate(n: count())\n    .emit(n: n)", text, w), ty)
@@ -1029,7 +1028,7 @@ fn witness_scenarios() -> Vec<Scenario> {
     const MS: i64 = 1_000_000;
     let mk = |text: &str, tags: Vec<&'static str>, wm: bool, ops: Vec<Op>| Scenario { prog: Prog { text: text.to_string(), types: vec![], tags, wm, var: false, wspec: None }, ops };
     vec![
-        mk("stream W = T\n    .window(3, sliding: 2)\n    .emit(id: id)", vec!["witness", "slidingCount"], false,
+        mk("stream W = T\n    .window(3, sliding: 2)\n    .emit(id: id)", vec!["witness", "slidingCount", "slidingCount-plain"], false,
            (0..7).map(|i| wev("T", i * S, i, 0, "a")).collect()),
         mk("stream W = T\n    .partition_by(k)\n    .window(2, sliding: 1)\n    .emit(id: id)", vec!["witness", "slidingCount", "partitioned"], false,
            (0..6).map(|i| wev("T", i * S, i, 0, if i % 2 == 0 { "a" } else { "b" })).collect()),
